@@ -60,12 +60,42 @@ func vhSpanningTree(g *graph.DGraph, nodes []*graph.Node) bool {
 	return ok
 }
 
+// vhCutValue is the definition the code documents: remove tree edge e, the tree falls into the tail
+// component (with e.From) and the head component (with e.To); cut value = total weight of the
+// edges from tail to head (e included) minus the total weight of the edges from head to tail.
+func vhCutValue(g *graph.DGraph, nodes []*graph.Node, e *graph.Edge) int {
+	var head [vhMaxN]bool
+	head[vhNodeIdx(nodes, e.To)] = true
+	for k := 1; k < len(nodes); k++ {
+		for _, y := range g.Edges {
+			if y.IsInSpanningTree && y != e {
+				a, b := vhNodeIdx(nodes, y.From), vhNodeIdx(nodes, y.To)
+				if head[a] || head[b] {
+					head[a], head[b] = true, true
+				}
+			}
+		}
+	}
+	cv := 0
+	for _, y := range g.Edges {
+		a, b := vhNodeIdx(nodes, y.From), vhNodeIdx(nodes, y.To)
+		if !head[a] && head[b] {
+			cv += y.Weight
+		}
+		if head[a] && !head[b] {
+			cv -= y.Weight
+		}
+	}
+	return cv
+}
+
 // Harness_NS_Pivot: one pivot of the network simplex from an ARBITRARY feasible tight spanning
 // tree (C10 / C03 lemma): the shape (a connected DAG) is the cube; the layering and the set of tree
 // edges are symbolic and only assumed to satisfy the invariant (every slack >= 0, tree edges
 // tight, tree spanning). The real setStreeValues, setCutValues, negCutValueTreeEdge,
 // minSlackNonTreeEdge and exchange run; afterwards the invariant must hold again, the entering
-// edge is in the tree, the leaving edge is not, and the total edge length did not increase.
+// edge is in the tree, the leaving edge is not, the total edge length did not increase, and the
+// cut values stored on the tree edges equal their definition for the tree they belong to.
 func Harness_NS_Pivot() {
 	g, nodes := vhGraph()
 	for _, n := range nodes {
@@ -91,6 +121,11 @@ func Harness_NS_Pivot() {
 	p := &networkSimplexProcessor{lim: make(graph.NodeIntMap), low: make(graph.NodeIntMap)}
 	p.setStreeValues(g.Nodes[0])
 	p.setCutValues(g)
+	for _, x := range g.Edges {
+		if x.IsInSpanningTree {
+			vhAssert(x.CutValue == vhCutValue(g, nodes, x), "cut-values-of-the-initial-tree-match-their-definition")
+		}
+	}
 	e := negCutValueTreeEdge(g.Edges)
 	if e == nil {
 		vhReach("already-optimal")
@@ -112,6 +147,13 @@ func Harness_NS_Pivot() {
 		after += x.Weight * (x.To.Layer - x.From.Layer)
 	}
 	vhAssert(f.IsInSpanningTree && !e.IsInSpanningTree, "entering-edge-in-leaving-edge-out")
+	for _, x := range g.Edges {
+		if x.IsInSpanningTree {
+			// the next pivot reads these values: they must describe the NEW tree (the search for a
+			// leaving edge, hence optimality at termination, depends on nothing else)
+			vhAssert(x.CutValue == vhCutValue(g, nodes, x), "cut-values-after-the-pivot-match-their-definition")
+		}
+	}
 	vhAssert(vhSpanningTree(g, nodes), "pivot-keeps-a-spanning-tree")
 	vhAssert(after <= before, "pivot-does-not-increase-weighted-total-edge-length")
 }
